@@ -11,10 +11,10 @@ RULE = ('schema with a recursive scope type and 1-3 generated unique/key/keyref 
         'tuple tables in the value space (planted duplicates, absent fields, equal values in different lexical forms, references before and after '
         'keys, nested scopes); verdict from the M5 model (3.11.4 incl. table propagation with conflict removal); metamorphic: permuting the '
         'document order inside every scope, and adding tuples with fresh values, leaves the verdict unchanged.  non-trivial = the evaluated '
-        'constraints produced >=2 tuples and at least one of: a pair of equal values with different lexical forms, a keyref, a nested scope, a '
+        'constraints produced >=2 tuples and at least one of: a pair of equal values with different lexical forms or of different related types, a keyref, a nested scope, a '
         'descendant/wildcard selector, a multi-field tuple; distinct by sha1(schema, instance, config).')
 ASSUMPTIONS = ['the M5 model is the only witness (no second XSD implementation in the image); metamorphic relations are model-independent',
-               'compared fields always have the same primitive type (cross-primitive equality is not generated)',
+               'compared fields (key vs keyref, carriers united by | in a selector) have the same type or different types of ONE primitive family (decimal/integer/long/short/nonNegativeInteger; string/normalizedString/token) restricted to values all member types share; cross-primitive pairs are not generated',
                'date values use no zone or UTC only; decimal literals avoid the forms "1." and ".5"',
                'structure validity of every instance is guaranteed by a permissive content model, so every reported error is an identity-constraint error']
 BUDGET = {'quick': 500, 'thorough': 4000}
@@ -148,10 +148,10 @@ def check_ic(ctx, ex, c, tier):
     labels = list(c['labels']) + ['api:' + cfg['api'], 'scanner:' + cfg['scanner'], 'route:' + cfg['route'], 'ext:%d' % c['ext'], 'big:%d' % c['big']] + \
              ['type:' + t for t in sorted(set(c['T'].values()))]
     for (name, root), doc, v, sx, lines in zip(variants, docs, viols, stats, results):
-        nt = sx['tuples'] >= 2 and (sx['equal_lex_diff'] > 0 or any(ic.kind == 'keyref' for ic in c['ics']) or 'nested' in c['labels'] or
+        nt = sx['tuples'] >= 2 and (sx['equal_lex_diff'] > 0 or sx['cross_type'] > 0 or any(ic.kind == 'keyref' for ic in c['ics']) or 'nested' in c['labels'] or
                                     any(l.startswith('sel:') and ('//' in l or '*' in l) for l in c['labels']) or any(len(ic.fields) > 1 for ic in c['ics']))
         st_.note(xv.sha([schema, doc, cfg]), nt, (labels if name == 'base' else []) + ['variant:' + name, 'verdict:' + ('valid' if not v else 'invalid')] + ['viol:' + x for x in v] +
-                 (['equal-lex-diff'] if sx['equal_lex_diff'] else []))
+                 (['equal-lex-diff'] if sx['equal_lex_diff'] else []) + (['cross-type-equal'] if sx['cross_type'] else []))
         bad = verdict(lines, v)
         if bad:
             raise PropertyFailure({'lane': 'ic', 'finding': case_fid, 'schemas': texts, 'load': ['s.xsd'], 'cfg': cfg, 'doc': doc, 'viol': sorted(v), 'variant': name,
